@@ -69,12 +69,20 @@ class Defs:
 
 
 class Terms:
-    def __init__(self, body, prog=None):
+    def __init__(self, body, prog=None, positions=False):
         self.body = body
         self.prog = prog
         self.defs = Defs(body)
         self._memo = {}
         self._busy = set()
+        # positions=True: a read of a multi-definition local is tagged with the program point of the reading
+        # statement, ("var", l, (block, stmt index | "t")), so that two reads separated by a redefinition are
+        # different terms (used by the panic-obligation engine; the table-comparison packs keep plain ("var", l))
+        self.positions = positions
+        self._pos = None
+
+    def var(self, l):
+        return ("var", l, self._pos) if self.positions else ("var", l)
 
     # -------------------------------------------------------------- locals
     def single_def(self, l):
@@ -93,10 +101,15 @@ class Terms:
             self._memo[l] = t
             return t
         if l in self._busy:
-            return ("var", l)
+            return self.var(l)
         sd = self.single_def(l)
         if sd is None:
-            t = ("var", l) if self.defs.whole[l] or self.defs.partial[l] else ("uninit", l)
+            if self.defs.whole[l] or self.defs.partial[l]:
+                t = self.var(l)
+                if not self.positions:
+                    self._memo[l] = t
+                return t
+            t = ("uninit", l)
             self._memo[l] = t
             return t
         # a single whole definition; a later &mut borrow may still change the
@@ -104,10 +117,15 @@ class Terms:
         # that care use `is_stable`.
         self._busy.add(l)
         bi, si, x = sd
-        if si == "t":
-            t = self.call_term(x, bi)
-        else:
-            t = self.rvalue(x)
+        saved = self._pos
+        self._pos = (bi, si)          # reads inside this definition happen at its program point
+        try:
+            if si == "t":
+                t = self.call_term(x, bi)
+            else:
+                t = self.rvalue(x)
+        finally:
+            self._pos = saved
         self._busy.discard(l)
         if self.defs.mut_borrowed[l]:
             # initialised once but later mutated through a `&mut` view (Vec::push, copy_from_slice,
